@@ -88,6 +88,10 @@ pub struct ShellSim {
     rx_seqs: std::collections::BTreeSet<u32>,
     rx_count: u64,
     sendfail: Vec<bool>,
+    /// one link may sit behind a back-pressured path: its socket is one end of a connected datagram pair whose
+    /// send buffer holds ~2 MTU-sized datagrams, so a batch flush meets real short `sendmmsg` counts / EAGAIN
+    bp: Option<(usize, tokio::net::UnixDatagram, usize, std::os::unix::net::UnixDatagram)>,
+    bp_frames: std::cell::RefCell<Vec<Vec<u8>>>,
     // ---- client stream (generator side)
     next_seq: u32,
     sent_seqs: Vec<u32>,
@@ -142,7 +146,7 @@ impl ShellSim {
             snap: ConfigSnapshot::default(), cw: CriticalWindow::new(), binder: Arc::new(SourceIpBinder),
             now: T0, n: 2, profile: "mixed".into(),
             path: vec![], rtt: vec![], group: None, registered: vec![], pending: VecDeque::new(),
-            ack_buf: vec![], rx_seqs: Default::default(), rx_count: 0, sendfail: vec![],
+            ack_buf: vec![], rx_seqs: Default::default(), rx_count: 0, sendfail: vec![], bp: None, bp_frames: Default::default(),
             next_seq: 1000, sent_seqs: vec![], pkt_ctr: 0, since_flush: 0, since_hk: 0, recent_marked: None, steps_done: 0, steps_total: 4000, victim_attempts: 0, quiet_on: false,
             c: HashMap::new(),
         }
@@ -327,6 +331,18 @@ impl ShellSim {
         self.rt.block_on(f)
     }
 
+    /// what the far end of the back-pressured link has received so far (in order)
+    fn bp_take(&self) -> Vec<Vec<u8>> {
+        if let Some((_, _, _, rx)) = &self.bp {
+            // the plain non-blocking handle: tokio's cached readiness is only refreshed while the runtime runs
+            let mut buf = [0u8; 2048];
+            while let Ok(n) = rx.recv(&mut buf) {
+                self.bp_frames.borrow_mut().push(buf[..n].to_vec());
+            }
+        }
+        std::mem::take(&mut *self.bp_frames.borrow_mut())
+    }
+
     fn build(&mut self, cfg: &Value) {
         self.n = cfg.get("links").and_then(Value::as_u64).unwrap_or(2) as usize;
         self.profile = cfg.get("profile").and_then(Value::as_str).unwrap_or("mixed").to_string();
@@ -382,6 +398,8 @@ impl ShellSim {
         self.since_flush = 0;
         self.since_hk = 0;
         self.recent_marked = None;
+        self.bp = None;
+        self.bp_frames.borrow_mut().clear();
         self.steps_done = 0;
         self.victim_attempts = 0;
         self.quiet_on = false;
@@ -392,7 +410,17 @@ impl ShellSim {
 
     /// after an arm call: capture both sides, feed the fake receiver, build the trace line
     fn finish(&mut self, mut line: Value) -> Value {
-        let frames = self.drain_receiver();
+        let mut frames = self.drain_receiver();
+        if let Some((l, _, id, _)) = &self.bp {
+            let (l, id) = (*l, *id);
+            let got = self.bp_take();
+            if got.len() >= 3 { self.bump("backpressured_flush_of_3_or_more"); }
+            frames.extend(got.into_iter().map(|b| (l, b)));
+            let cur = self.io.get(&self.conns[l].conn_id).map(|io| Arc::as_ptr(&io.socket) as usize);
+            if cur != Some(id) {
+                self.bp = None; // reconnected onto a fresh UDP socket
+            }
+        }
         let deliveries = self.drain_client();
         for _ in 0..deliveries.len() { self.bump("client_deliveries"); }
         for (_, b) in &frames {
@@ -414,6 +442,31 @@ impl ShellSim {
         line["known"] = json!(self.last_client.is_some());
         line["pend"] = json!(self.reg.pending_reg2_idx().map(|i| i as i64 + 1).unwrap_or(0));
         line
+    }
+}
+
+/// Drive `f` to completion; whenever it is pending (a send waiting for buffer space) read what the far end of
+/// the back-pressured pair holds, which is what frees that space -- the network draining the link.
+async fn with_drain<F: std::future::Future>(
+    f: F,
+    bp: &Option<(usize, tokio::net::UnixDatagram, usize, std::os::unix::net::UnixDatagram)>,
+    sink: &std::cell::RefCell<Vec<Vec<u8>>>,
+) -> F::Output {
+    let Some((_, rx, _, _)) = bp else { return f.await };
+    tokio::pin!(f);
+    let mut buf = [0u8; 2048];
+    loop {
+        tokio::select! {
+            biased;
+            out = &mut f => return out,
+            r = rx.readable() => {
+                if r.is_ok() {
+                    while let Ok(n) = rx.try_recv(&mut buf) {
+                        sink.borrow_mut().push(buf[..n].to_vec());
+                    }
+                }
+            }
+        }
     }
 }
 
@@ -488,18 +541,18 @@ impl Engine for ShellSim {
                 let registration_complete = self.reg.has_connected;
                 let src = self.client_addr;
                 {
-                    let Self { rt, conns, io, last_sel, tracker, last_client, snap, cw, .. } = self;
-                    rt.block_on(async {
+                    let Self { rt, conns, io, last_sel, tracker, last_client, snap, cw, bp, bp_frames, .. } = self;
+                    rt.block_on(with_drain(async {
                         handle_srt_packet(Ok((n, src)), &mut pkt, conns, io, last_sel, tracker, last_client,
                                           registration_complete, snap, cw).await;
-                    });
+                    }, bp, bp_frames));
                 }
                 line["regdone"] = json!(registration_complete);
                 line["q0"] = json!(q0);
             }
             "FlushTick" => {
-                let Self { rt, conns, io, .. } = self;
-                rt.block_on(async { flush_all_batches(conns, io).await });
+                let Self { rt, conns, io, bp, bp_frames, .. } = self;
+                rt.block_on(with_drain(async { flush_all_batches(conns, io).await }, bp, bp_frames));
             }
             "Housekeeping" => {
                 self.bump("housekeeping");
@@ -507,15 +560,16 @@ impl Engine for ShellSim {
                 let now = self.now;
                 let pre: Vec<(bool, bool, bool)> = self.conns.iter()
                     .map(|c| (c.is_timed_out(now), c.should_attempt_reconnect(now), c.connected)).collect();
+                let socks0: Vec<Option<usize>> = self.conns.iter()
+                    .map(|c| self.io.get(&c.conn_id).map(|io| std::sync::Arc::as_ptr(&io.socket) as usize)).collect();
                 let r = {
-                    let Self { rt, conns, io, reg, all_failed_at, readers, packet_tx, .. } = self;
-                    rt.block_on(async {
+                    let Self { rt, conns, io, reg, all_failed_at, readers, packet_tx, bp, bp_frames, .. } = self;
+                    rt.block_on(with_drain(async {
                         handle_housekeeping(conns, io, reg, classic, now, all_failed_at, readers, packet_tx).await
-                    })
+                    }, bp, bp_frames))
                 };
                 line["fatal"] = json!(r.is_err());
                 line["pre"] = json!(pre.iter().map(|(t, a, c)| json!({"to": t, "due": a, "conn": c})).collect::<Vec<_>>());
-                // a reconnect re-created the socket: a sticky send-failure injection ends with it
                 for (i, (t, a, _)) in pre.iter().enumerate() {
                     if *t && *a {
                         self.bump("reconnect_attempts");
@@ -527,6 +581,14 @@ impl Engine for ShellSim {
                                 self.quiet_on = true;
                             }
                         }
+                    }
+                }
+                // a reconnect re-created the socket (new source port): a sticky send-failure injection ends with
+                // it.  Decided by the socket itself -- a due, timed-out link is NOT reconnected when the same pass
+                // first renews its grace period (selected by the probe).
+                for i in 0..self.n {
+                    let now_sock = self.io.get(&self.conns[i].conn_id).map(|io| std::sync::Arc::as_ptr(&io.socket) as usize);
+                    if now_sock != socks0[i] {
                         self.sendfail[i] = false;
                         self.registered[i] = false;
                     }
@@ -631,6 +693,32 @@ impl Engine for ShellSim {
                 }
                 self.sendfail[l] = true;
             }
+            "Backpressure" => {
+                // put link l behind a path that takes ~2 datagrams at a time: from now on its socket is one end of
+                // a connected datagram pair with a 4 KiB send buffer, wrapped in the real BatchUdpSocket
+                let l = geti(ev, "l") as usize - 1;
+                let conn_id = self.conns[l].conn_id;
+                if self.bp.is_none() && self.io.contains_key(&conn_id) {
+                    let made = self.block(async {
+                        let (tx, rx) = std::os::unix::net::UnixDatagram::pair()?;
+                        tx.set_nonblocking(true)?;
+                        rx.set_nonblocking(true)?;
+                        let tx = socket2::Socket::from(tx);
+                        tx.set_send_buffer_size(4096)?;
+                        let tx = BatchUdpSocket::new(tx)?;
+                        let rx_sync = rx.try_clone()?;
+                        let rx = tokio::net::UnixDatagram::from_std(rx)?;
+                        Ok::<_, std::io::Error>((tx, rx, rx_sync))
+                    });
+                    if let Ok((tx, rx, rx_sync)) = made {
+                        let io = self.io.get_mut(&conn_id).unwrap();
+                        io.socket = Arc::new(tx);
+                        let id = Arc::as_ptr(&io.socket) as usize;
+                        self.bp = Some((l, rx, id, rx_sync));
+                        self.bump("backpressure_injected");
+                    }
+                }
+            }
             "SetCfg" => {
                 if let Some(m) = ev.get("classic").and_then(Value::as_bool) {
                     self.snap.mode = if m { SchedulingMode::Classic } else { SchedulingMode::Enhanced };
@@ -702,6 +790,24 @@ impl Engine for ShellSim {
                 return Some(json!({"ev": "UplinkPkt", "l": l as i64 + 1, "bytes": b}));
             }
         }
+        // 1c. while an RTT probe is outstanding on some link: an echo whose stamp sits on a boundary of the
+        //     sampling rule (future by <= 10 s, same ms, just over / just under 10 s old) or is plausible
+        if let Some(l) = (0..self.n).find(|i| self.conns[*i].rtt.waiting_for_keepalive_response) {
+            if rng.random_range(0..30) == 0 {
+                let ts: u64 = match rng.random_range(0..6) {
+                    0 => self.now + rng.random_range(1..10_000),
+                    1 => self.now,
+                    2 => self.now.saturating_sub(rng.random_range(10_001..10_050)),
+                    3 => self.now.saturating_sub(rng.random_range(9_950..=10_000)),
+                    4 => self.now + rng.random_range(10_000..20_000),
+                    _ => self.now.saturating_sub(rng.random_range(1..400)),
+                };
+                let mut b = vec![0u8; if rng.random_range(0..2) == 0 { 10 } else { 38 }];
+                b[0..2].copy_from_slice(&SRTLA_TYPE_KEEPALIVE.to_be_bytes());
+                b[2..10].copy_from_slice(&ts.to_be_bytes());
+                return Some(json!({"ev": "UplinkPkt", "l": l as i64 + 1, "bytes": b}));
+            }
+        }
         // 1b. a loaded uplink channel is drained before anything else (<= 64 datagrams per call)
         if self.packet_rx.len() > 0 {
             return Some(json!({"ev": "Drain"}));
@@ -732,6 +838,10 @@ impl Engine for ShellSim {
         }
         let fault = self.profile == "fault" || (repair && !quiet);
         let relay = self.profile == "relay";
+        // one link at a time may be moved behind a back-pressured path (short sendmmsg counts on batch flushes)
+        if self.bp.is_none() && !quiet && self.profile != "repair" && rng.random_range(0..500) == 0 {
+            return Some(json!({"ev": "Backpressure", "l": rng.random_range(1..=self.n)}));
+        }
         let mut r = rng.random_range(0..1000);
         if quiet && r < 30 {
             r = 500; // no faults, no configuration changes, no strays
